@@ -559,7 +559,19 @@ impl<'ast, 'res> Resolver<'ast, 'res> {
         for _ in 0..pending.len() {
             let mut changed = false;
             for pending_def in &pending {
+                // Inside the body a parameter or a variable the body declares hides any outer
+                // variable of that name; neither is declared yet, so without this scope
+                // `return n` in `do f(n)` took the type of an unrelated outer `n`.
+                let mut hidden: VariableScope<'ast, 'res> = Vec::new_in(self.arena);
+                for (param_name, param_span) in
+                    pending_def.params.params.iter().zip(pending_def.params.param_spans.iter())
+                {
+                    hidden.push((param_name, ValueType::Dynamic, param_span, LocalId(u32::MAX)));
+                }
+                Self::collect_declared_names(pending_def.body, &mut hidden);
+                self.variable_scopes.push(hidden);
                 let return_type = self.infer_function_return_type(pending_def.body);
+                self.variable_scopes.pop();
                 let current_scope = self
                     .function_scopes
                     .last_mut()
@@ -575,6 +587,28 @@ impl<'ast, 'res> Resolver<'ast, 'res> {
             }
             if !changed {
                 break;
+            }
+        }
+    }
+
+    /// Every name a function body declares with `make` (nested function bodies excluded),
+    /// as dynamically typed entries.
+    fn collect_declared_names(block: BlockRef<'ast>, names: &mut VariableScope<'ast, 'res>) {
+        for stmt in block.stmts {
+            match stmt {
+                Stmt::Assign { var, var_span, .. } => {
+                    names.push((var, ValueType::Dynamic, var_span, LocalId(u32::MAX)));
+                }
+                Stmt::If { then_b, else_b, .. } => {
+                    Self::collect_declared_names(then_b, names);
+                    if let Some(else_b) = else_b {
+                        Self::collect_declared_names(else_b, names);
+                    }
+                }
+                Stmt::Loop { body, .. } | Stmt::Block { block: body, .. } => {
+                    Self::collect_declared_names(body, names);
+                }
+                _ => {}
             }
         }
     }
